@@ -46,6 +46,8 @@ def case_symmetry(case):
     u, vv, Kx, Ky, Kz = prof
     levels = [2, 4]
     modes = sl.resolve_modes(case["modes"], nx, ny, dom, 0.0)
+    sl.pollute(nx, ny, dx, dy)
+    sl.pollute(ny, nx, dy, dx)
     fp = case["footprint"]
     tol = 1e-9
     cnt = [0]
@@ -77,6 +79,9 @@ def case_symmetry(case):
     for (ti, tj) in towers:
         mp = (ti * dx, tj * dy)
         base = S(q, z, prof, dom, modes, mp)
+        if all(float(t).is_integer() for t in mp):
+            # the same tower given with integer-typed coordinates (a legitimate way to write 20 m)
+            cmp("int-coordinates", S(q, z, prof, (int(dom[0]), int(dom[1])), modes, tuple(int(t) for t in mp)), base, "tower and domain given as Python ints (tower cell %d,%d)" % (ti, tj))
         # reflections
         r = S(q[:, ix], z, (-u, vv, Kx, Ky, Kz), dom, modes, (((-ti) % nx) * dx, mp[1]))
         cmp("mirror-x", r, base[..., ix], "x-mirrored problem (tower cell %d,%d)" % (ti, tj))
@@ -108,6 +113,12 @@ def halo_configs(tier):
     grids = [((7, 5), (70.0, 75.0)), ((5, 7), (75.0, 70.0))] if tier == "quick" else [((7, 5), (70.0, 75.0)), ((5, 7), (75.0, 70.0)), ((9, 7), (90.0, 105.0)), ((5, 5), (60.0, 40.0))]
     for p, g, h, fp in itertools.product(profs, grids, halos, (True, False)):
         yield {"prof": p, "grid": g[0], "dom": g[1], "halo": h, "modes": [64, 64], "footprint": fp}
+    for p, fp in itertools.product(profs, (True, False)):
+        # 7x5 interior, dx=10, dy=7, halo 15 -> pads (1,2): the PADDED grid is square (9x9) while the interior is not,
+        # so the transposed problem reuses the same padded shape with another interior
+        yield {"prof": p, "grid": (7, 5), "dom": (70.0, 35.0), "halo": 15.0, "modes": [64, 64], "footprint": fp}
+        # dx=2.5, dy=7.5, halo 8.9 -> padded offsets 7.5 m (fractional) with whole-metre tower coordinates
+        yield {"prof": p, "grid": (7, 5), "dom": (17.5, 37.5), "halo": 8.9, "modes": [64, 64], "footprint": fp}
 
 
 def case_halo_symmetry(case):
@@ -147,10 +158,14 @@ def case_halo_symmetry(case):
         if not e <= tol:
             v.append({"sub": label, "sig": "%s/%s" % (label, "footprint" if fp else "dispersion"), "msg": "%s: deviation %.2e of field maximum (tol %.0e); config %s" % (what, e, tol, core.canon(case))})
 
-    towers = [(2, 1), (nx - 2, ny - 1)] if fp else [(0, 0)]
+    towers = [(2, 1), (nx - 2, ny - 1), (4, 2)] if fp else [(0, 0)]
     for (ti, tj) in towers:
         mp = (ti * dx, tj * dy) if fp else (0.0, 0.0)
         base = S(q, prof, dom, modes, mp)
+        r = S(q.T.copy(), (vv, u, Ky, Kx, Kz), (dom[1], dom[0]), (modes[1], modes[0]), (mp[1], mp[0]))
+        cmp("transpose-halo", r, np.swapaxes(base, -1, -2), "axes exchanged with halo %r (tower cell %d,%d)" % (halo, ti, tj))
+        if fp and all(float(t).is_integer() for t in mp):
+            cmp("int-coordinates-halo", S(q, prof, dom, modes, tuple(int(t) for t in mp)), base, "tower given as Python ints with halo %r (tower cell %d,%d)" % (halo, ti, tj))
         mpx = ((nx - 1 - ti) * dx, mp[1]) if fp else mp
         mpy = (mp[0], (ny - 1 - tj) * dy) if fp else mp
         r = S(q[:, ::-1].copy(), (-u, vv, Kx, Ky, Kz), dom, modes, mpx)
